@@ -183,6 +183,7 @@ impl Monitors {
         self.check_relays(pre, rec, post, &told, at, out, stats);
         self.check_suspicion_timeout(pre, rec, post, at, out, stats);
         self.check_round_robin(pre, rec, post, at, out, stats);
+        self.check_rejections(pre, rec, post, at, out, stats);
         self.check_notifications_and_epochs(pre, rec, post, &told, delivered_genuine, at, out, stats);
         self.check_table(pre, rec, post, &told, at, out);
         self.check_incarnation(pre, rec, post, &told, at, out, stats);
@@ -567,6 +568,30 @@ impl Monitors {
         }
     }
 
+    // ---- C17 (the part a single run can decide) ------------------------------------------------------------
+    /// A call that fails with one of the documented "does not affect Foca's state" errors emits
+    /// nothing and leaves every observable piece of state (membership, backlogs with their counters,
+    /// probe, incarnation, token, connection state, cursor, buffer capacity) as it was. The twin-run
+    /// check decides the rest (RNG position, scratch buffers, later behaviour).
+    fn check_rejections(&mut self, pre: &Obs, rec: &CallRec, post: &Obs, at: u64, out: &mut Vec<Violation>, stats: &mut Stats) {
+        let Res::Err(k) = rec.result else { return };
+        let traceless = match (&rec.input, k) {
+            (Input::Data(_), ErrKind::DataTooBig | ErrKind::Decode | ErrKind::DataFromOurselves) => true,
+            (Input::ReuseDown, ErrKind::NotUndead) => true,
+            (Input::ChangeIdentity(_), ErrKind::SameIdentity) => true,
+            (Input::SetConfig(_), ErrKind::InvalidConfig) => true,
+            (Input::AddBroadcast(_), ErrKind::DataTooBig | ErrKind::MalformedPacket) => true,
+            _ => false,
+        };
+        if !traceless {
+            return;
+        }
+        stats.inc("c17_rejections_monitored");
+        if !rec.no_effects() || pre != post {
+            v(out, "C17", "C17/rejected-input-left-a-trace", at, format!("{} failed with {k:?} yet emitted {} effect(s); observable state changed: {}", rec.input.kind(), rec.fx.len(), pre != post));
+        }
+    }
+
     // ---- C14 ---------------------------------------------------------------------------------------------
     /// Every effective probe round pings exactly one member that is active, never the instance's own
     /// address; while the set of known members (identities and which of them are active) is unchanged,
@@ -727,6 +752,24 @@ impl Monitors {
         for old in &pre.state {
             match post.slot(old.id().addr) {
                 Some(new) => {
+                    if new.id() == old.id() {
+                        // C01: the record of an identity only moves forward in the precedence order
+                        let rank = |s: State| match s {
+                            State::Alive => 0,
+                            State::Suspect => 1,
+                            State::Down => 2,
+                        };
+                        let forward = if old.state() == State::Down {
+                            new.state() == State::Down && new.incarnation() == old.incarnation()
+                        } else if new.state() == State::Down {
+                            true
+                        } else {
+                            new.incarnation() > old.incarnation() || (new.incarnation() == old.incarnation() && rank(new.state()) >= rank(old.state()))
+                        };
+                        if !forward {
+                            v(out, "C01", "C01/record-moved-backwards", at, format!("record {:?} became {:?} while handling {}", old, new, rec.input.kind()));
+                        }
+                    }
                     if new.id() != old.id() {
                         if !new.id().win_conflict(old.id()) {
                             v(out, "C09", "C09/identity-moved-backwards", at, format!("record {} replaced by {} which does not win the address conflict", old.id(), new.id()));
